@@ -3,8 +3,8 @@
     nondeterminism can enter the implementation: iteration over a HashMap.  The map's iteration order is
     an arbitrary permutation of its entries (keys distinct); the theorem says the order does not matter
     once the entries are sorted by key (what the repaired exporters do), and that without the sort it does. *)
-From Coq Require Import ZArith List Permutation.
-From L21 Require Import Order.SortedIter.
+From Coq Require Import ZArith List Permutation String.
+From L21 Require Import Order.SortedIter Order.HashIterAllowed Gen.HashIterGen.
 Import ListNotations.
 Local Open Scope Z_scope.
 
@@ -21,6 +21,19 @@ Theorem C20_unsorted_iteration_refuted :
   exists l1 l2 : list (Z * Z), NoDup (map fst l1) /\ Permutation l1 l2 /\ iterate_unsorted l1 <> iterate_unsorted l2.
 Proof. exact unsorted_iteration_refuted. Qed.
 
+(** The tie of that theorem to the code: EVERY place where the conversion crates iterate over a name of hash
+    type (list regenerated from the Rust sources on every run by tools/translate_hash_iter.py) either goes
+    through a sort by key -- the situation of the theorem above -- or is on the reviewed list
+    Order/HashIterAllowed.v of iterations that are not over a hash container at all.  A conversion that starts
+    to iterate a hash map directly (or drops the sort) makes this obligation fail. *)
+Theorem C20_hash_iteration_sites : sites_ok hash_iter_sites = true.
+Proof. vm_compute. reflexivity. Qed.
+
+Example C20_sites_nonvacuous :
+  (7 <= List.length (filter (fun s => snd s) hash_iter_sites))%nat /\
+  existsb (fun s => site_eqb (fst s) ("layout21raw/src/lef.rs"%string, "export_abstract"%string, "sorted_by_layer(abs.blockages)"%string)) hash_iter_sites = true.
+Proof. vm_compute. split; [repeat constructor | reflexivity]. Qed.
+
 Example C20_nonvacuous :
   isort [(6, 1); (5, 0); (7, 2)] = [(5, 0); (6, 1); (7, 2)] /\ isort [(7, 2); (6, 1); (5, 0)] = [(5, 0); (6, 1); (7, 2)].
 Proof. vm_compute. split; reflexivity. Qed.
@@ -28,3 +41,4 @@ Proof. vm_compute. split; reflexivity. Qed.
 Print Assumptions C20_sorted_iteration_order_irrelevant.
 Print Assumptions C20_sorted_iteration_is_a_permutation.
 Print Assumptions C20_unsorted_iteration_refuted.
+Print Assumptions C20_hash_iteration_sites.
